@@ -84,6 +84,15 @@ func (g *Gen) Next() world.Event {
 		case "sched":
 			sh := uint32(g.R.Intn(len(w.Nodes)))
 			s := world.RandSchedule(g.R, 1+g.R.Intn(50))
+			// a schedule that differs from the one in force in one section only
+			switch g.R.Intn(6) {
+			case 0, 1:
+				cur := w.Nodes[sh].Sched.Clone()
+				s.BuiltIn = cur.BuiltIn // only the per-byte (base operation) prices change
+			case 2:
+				cur := w.Nodes[sh].Sched.Clone()
+				s.Base = cur.Base // only the built-in function prices change
+			}
 			if g.chance("p:sched-invalid") {
 				switch g.R.Intn(4) {
 				case 0:
